@@ -136,8 +136,11 @@ Definition undo_get_token : M unit :=
 Definition get_line_offset : M N :=
   fun s => match ps_before s, ps_after s with
            | cur :: prev :: _, _ :: _ =>
+               (* a comment token carries its start line; line breaks inside it belong to its text *)
+               let prev_line := if ttype_eqb (tk_type prev) TComment
+                                then tk_line prev + count_newlines (tk_text prev) else tk_line prev in
                if Nat.eqb (tk_fileid prev) (tk_fileid cur) then
-                 if tk_line prev <=? tk_line cur then (ROk (tk_line cur - tk_line prev), s)
+                 if prev_line <=? tk_line cur then (ROk (tk_line cur - prev_line), s)
                  else (RPanic "parser.rs: get_line_offset: cur_line - prev_line", s)
                else (ROk 2, s)
            | _, _ =>
@@ -249,8 +252,8 @@ Definition get_double (c : ctx) : M N :=
     end
   else
     fun s => match find_fentry (ps_ftab s) text with
-             | Some e => if fe_ok e then (ROk (fe_bits e), s)
-                         else bindM (mk_diag "MalformedNumber" c text) fail s
+             | Some e => if fe_ok e && (fe_bits e mod 2 ^ 63 <? 0x7FF0000000000000) then (ROk (fe_bits e), s)
+                         else bindM (mk_diag "MalformedNumber" c text) fail s    (* not a number, or not finite *)
              | None => (RPanic "float oracle: lexeme missing from the table", s)
              end.
 
@@ -259,7 +262,8 @@ Definition get_float (c : ctx) : M N :=
   tok <-- expect_token c TNumber ;;
   let text := tk_text tok in
   fun s => match find_fentry (ps_ftab s) text with
-           | Some e => if fe_ok32 e then (ROk (fe_bits32 e), s)
+           | Some e => if fe_ok32 e && ((fe_bits32 e mod 2 ^ 63 <? 0x7FF0000000000000) || starts_0x text)
+                       then (ROk (fe_bits32 e), s)
                        else bindM (mk_diag "MalformedNumber" c text) fail s
            | None => (RPanic "float oracle: lexeme missing from the table", s)
            end.
